@@ -56,7 +56,13 @@ pub fn assumptions(prop: &str) -> Vec<&'static str> {
     let mut v = vec![
         "sampling, not proof: seeded search over schedules, merge trees, fault placements and data",
         "exact oracle: own big-integer arithmetic (sim/src/exact.rs), cross-checked against python fractions in ./check selftest",
-        "float backend of the crate under test: libm (the crate's default feature)",
+        if cfg!(feature = "std") {
+            "build configuration: the crate's `std` feature (not libm); simulator built with debug assertions on"
+        } else if cfg!(feature = "nightly") {
+            "build configuration: the crate's default `libm` feature plus its `nightly` feature (nightly toolchain), release profile"
+        } else {
+            "build configuration: the crate's default `libm` feature, release profile without debug assertions"
+        },
     ];
     match prop {
         "C02" | "C08" | "C09" | "C19" => v.push("envelope constants of DESIGN.md 'Error envelopes'; asserted only where C*n*kappa*2^-53 <= 1 and away from overflow/underflow"),
